@@ -219,6 +219,11 @@ ELEMS = {
     "allof_list_any_first": ("m: int", "AllOf(Array(Element(), uniqueItems=True), Array(_inner(m)))", "Union[int, List[Dict[str, int]]]", ["not isinstance(v, list) or (len(v) <= 2 and all(len(d) <= 1 and all(k in ('x', 'y') for k in d) for d in v))"], "quick"),
     "allof_nested_list_any_first": ("m: int", "AllOf(Array(Array(Element())), Array(Array(_inner(m)), maxItems=1))", "Union[int, List[List[Dict[str, int]]]]", ["not isinstance(v, list) or (len(v) <= 1 and all(len(x) <= 1 and all(len(d) <= 1 and all(k in ('x', 'y') for k in d) for d in x) for x in v))"], "quick"),
     "parsed_array_allof": ("m: int", 'parse_s({"type": "array", "uniqueItems": True, "allOf": [{"type": "array", "items": {"type": "object", "title": "Inner", "properties": {"x": {"type": "number", "minimum": m}}}}]})', "Union[int, List[Dict[str, int]]]", ["not isinstance(v, list) or (len(v) <= 2 and all(len(d) <= 1 and all(k in ('x', 'y') for k in d) for d in v))"], "quick"),
+    # a later member whose annotation text is CONTAINED in an earlier member's (List[int] / int, InnerMost / Inner, List[Any] / Any)
+    "anyof_container_before_item": ("m: int", "AnyOf(Array(Integer(minimum=m)), Integer(), String())", SV, SVPRE, "quick"),
+    "oneof_list_any_before_any": ("m: int", "OneOf(Array(Element(), minItems=1), Element(maximum=m, maxItems=0))", SV, SVPRE, "quick"),
+    "parsed_typelist_array_first": ("m: int", 'parse_s({"type": ["array", "integer", "string"], "minimum": m, "items": {"type": "integer"}})', SV, SVPRE, "quick"),
+    "anyof_class_name_contains": ("m: int", 'AnyOf(Object.inline("InnerMost", properties={"y": Property(Integer(), required=True)}), _inner(m))', OV, OVPRE, "quick"),
     "class": ("m: int", "_inner(m)", OV, OVPRE, "quick"),
     "array_of_class": ("m: int", "Array(_inner(m))", "Union[int, List[Dict[str, int]]]", ["not isinstance(v, list) or (len(v) <= 2 and all(len(d) <= 1 and all(k in ('x', 'y') for k in d) for d in v))"], "quick"),
     "anyof_class": ("m: int", "AnyOf(_inner(m), Integer())", OV, OVPRE, "quick"),
